@@ -10,7 +10,7 @@ import xml.etree.ElementTree as ET
 
 from vf.core import hostile_history
 from vf.gen import instances
-from vf.oracles import modelwalk, ref_decl
+from vf.oracles import modelwalk, ref_decl, spec
 
 PROP = "C13"
 LEVEL = "exploration"
@@ -201,6 +201,22 @@ def probe_groups(ctx, name, cls, seedstr):
     opt_force, req_force = ref_decl.mutexes_in_force(cls)
     rng = random.Random(seedstr)
     all_groups = [("optional", g) for g in opt_any] + [("required", g) for g in req_any]
+    # a declaration that is not a list of lists (a generator expression, a map object ...) is used up by whoever reads it first:
+    # from then on the group "can never fire"
+    for base in cls.__mro__:
+        for attr in ("optionalMutexes", "requiredMutexes"):
+            v = vars(base).get(attr)
+            if v is not None and not isinstance(v, (list, tuple)):
+                ctx.violation(f"mutex-declaration-is-one-shot/{base.__name__}.{attr}", f"{base.__name__}.{attr} is a {type(v).__name__}, not a list: after its first use no group is left", 
+                              {"op": "group", "cls": name, "group": [], "kind": attr, "seedstr": seedstr})
+    # ... and the groups the reviewed declarations hold for this class (frozen table) are probed whether or not they are still found
+    te = spec.table().get(name)
+    if te is not None:
+        for gkind, key in (("optional", "at_most_one"), ("required", "exactly_one")):
+            for g in te.get(key, []):
+                if (gkind, list(g)) not in [(k, list(x)) for k, x in all_groups]:
+                    all_groups.append((gkind, list(g)))
+                    ctx.count("groups_taken_from_spec_table_only")
     for gkind, group in all_groups:
         group = list(group)
         ctx.ev()
